@@ -26,8 +26,9 @@ SHARDS = {"quick": 8, "thorough": 48}
 SHARD_TIMEOUT = {"quick": 600, "thorough": 3000}
 N_BASES = {"quick": 16, "thorough": 12}   # per shard
 DETAILS = ["hash", "repr", "context", "all", "hash,repr,context", "repr,context"]
+MODES = ("file", "dir", "dotdir")        # one file / a directory to be created / an existing directory with a dotted name
 KINDS = ["clean", "processor_exception", "unresolvable_param", "type_gate", "undeclared_write",
-         "construction_unknown_param", "construction_probe_without_key", "abort"]
+         "construction_unknown_param", "construction_probe_without_key", "abort", "wrong_output_type"]
 
 
 def data_type_before(model_nodes, base_data, i):
@@ -63,6 +64,12 @@ def variant(base, mtrace, kind, i, g):
         f = {"processor": "VMulDefault", "parameters": {"bogus_param": 1.0}}
     elif kind == "construction_probe_without_key":
         f = {"processor": "VValueProbe"}
+    elif kind == "wrong_output_type":
+        # a node that does NOT fail but returns another type than it declares (its output_type_ok postcondition is FAIL):
+        # the run goes on until a later node's type gate, or returns when there is none
+        if t != "Float":
+            return None
+        f = {"processor": "VBadType"}
     elif kind == "abort":
         f = {"processor": "VInterrupt"} if (t == "Float" and alt) else {"processor": "VCtxInterrupt"}
     else:
@@ -126,7 +133,7 @@ def check_variant(run, nodes, data, ctx, detail, mode, scratch, intended):
             viol("exception_not_original", f"caller received {real.exc!r}, the component raised the pre-built {odd!r}")
         if m.fail_detail == "VAbort" and real.exc is not abort:
             viol("exception_not_original", f"caller received {real.exc!r}, the component raised the pre-built {abort!r}")
-    if mode == "dir" and len(tr.files) != 1:
+    if mode in ("dir", "dotdir") and len(tr.files) != 1:
         viol("unexpected_trace_files", f"{len(tr.files)} trace files for a single run in directory mode")
     shutil.rmtree(tr.tdir, ignore_errors=True)
     return m
@@ -250,14 +257,17 @@ def run(run):
                 check_nested_shared_orchestrator(run, g, DETAILS[bases % len(DETAILS)], scratch)
             if bases % 2 == 0:
                 for k in range(n):
-                    check_transport_fault(run, base, k, DETAILS[(combo + k) % len(DETAILS)], ("file", "dir")[k % 2], scratch)
+                    check_transport_fault(run, base, k, DETAILS[(combo + k) % len(DETAILS)], MODES[k % 3], scratch)
             for i in range(n + 1):
                 for kind in KINDS:
                     if kind == "clean" and i > 0:
                         continue
                     nodes = variant(base, mb.nodes, kind, i, g)
-                    combos = ([(d, mo) for d in DETAILS for mo in ("file", "dir")] if thorough and (i + bases) % 3 == 0
-                              else [(DETAILS[combo % len(DETAILS)], ("file", "dir")[(combo // len(DETAILS)) % 2])])
+                    if nodes is None:
+                        run.count("wrong_output_type_not_applicable_here")
+                        continue
+                    combos = ([(d, mo) for d in DETAILS for mo in MODES] if thorough and (i + bases) % 3 == 0
+                              else [(DETAILS[combo % len(DETAILS)], MODES[(combo // len(DETAILS)) % 3])])
                     for detail, mode in combos:
                         combo += 1
                         m = check_variant(run, nodes, base["data"], base["ctx"], detail, mode, scratch, (kind, i))
